@@ -308,8 +308,14 @@ func (te *tableEngine) batchAddPlayers(players []JoinPlayer) error {
 }
 
 func (te *tableEngine) playersAutoIn() {
+	te.rgLock.Lock()
+	defer te.rgLock.Unlock()
+
 	// Preparing ready group for waiting all players' join
 	te.rg.Stop()
+	// one ready group per set-up: the stopped group's goroutine may still be validating an earlier signal
+	// (holding its read lock), and adding participants to that group would dead-lock against it
+	te.rg = syncsaga.NewReadyGroup()
 	te.rg.SetTimeoutInterval(17)
 	te.rg.OnTimeout(func(rg *syncsaga.ReadyGroup) {
 		// Auto Ready By Default
